@@ -70,6 +70,8 @@ type RPCRec struct {
 	OptHeader    string   // what the grpc.Header option target holds at the end
 	OptTrailer   string
 	NewStreamErr string
+	HdrAtFirstRecv string // grpc.Header option target right after the first successful receive
+	TrlAtFinal     string // grpc.Trailer option target right after the receive that reported the final status
 	// handler side
 	HandlerRan     int
 	SrvRecv        []string
